@@ -42,6 +42,9 @@ TReset == /\ Is("cfg") /\ (IF l = 1 THEN TRUE ELSE Log[l - 1].e = "end") /\ Ev.n
           /\ Consume
 TStLoop == /\ Is("st") /\ gpc[Ev.s] = "none" /\ Visit(Ev.s) /\ status'[Ev.s] = Ev.v /\ Consume
 TStDupCancel == /\ Is("st") /\ Ev.v = "C" /\ status[Ev.s] = "C" /\ Consume /\ UNCHANGED vars
+\* two nested loops over one included pipeline may both find a condition false and both store Skipped
+TStDupSkip == /\ Is("st") /\ Ev.v = "S" /\ status[Ev.s] = "S" /\ gr[Ev.s] = 1 /\ cls[Ev.s] = "CFALSE"
+              /\ Cardinality({i \in Stages : inc[i]}) > 1 /\ Consume /\ UNCHANGED vars
 TStPublish == /\ Is("st") /\ gpc[Ev.s] = "back" /\ Publish(Ev.s) /\ status'[Ev.s] = Ev.v /\ Consume
 TEnter == /\ Is("enter") /\ StageEnter(Ev.s) /\ Consume
 TRet == /\ Is("ret") /\ StageRet(Ev.s) /\ Ev.failed = rfail'[Ev.s] /\ Consume
@@ -69,7 +72,7 @@ TDone == /\ Is("done") /\ loop /\ (\A s \in Stages : gr[s] = 0 => status[s] \not
          /\ UNCHANGED <<cfgv, status, gerr, want, twice, nl, by, gpc, rpc, pt, role, done, rfail, ran, upst, dn>>
 \* the process has exited: every context that was used has been taken down
 TEnd == /\ Is("end") /\ AllOver /\ Consume /\ UNCHANGED vars
-TNext == TReset \/ TStLoop \/ TStDupCancel \/ TStPublish \/ TEnter \/ TRet \/ TNRet \/ TRunEnter \/ TRunExit \/ TCmdStart \/ TCmdEnd
+TNext == TReset \/ TStLoop \/ TStDupCancel \/ TStDupSkip \/ TStPublish \/ TEnter \/ TRet \/ TNRet \/ TRunEnter \/ TRunExit \/ TCmdStart \/ TCmdEnd
          \/ TCtxStart \/ TCtxEnd \/ TDownStart \/ TDownEnd \/ TDone \/ TEnd
 HW == TLCSet(1, IF TLCGet(1) < l THEN l ELSE TLCGet(1))
 Accepted == TLCGet(1) = Len(Log) + 1
